@@ -1279,7 +1279,16 @@ func (e *Entry) ApplyDeviate(deviateOpts ...DeviateOpt) []error {
 					continue
 				}
 				if !hasIgnoreDeviateNotSupported(deviateOpts) {
-					dp.delete(deviatedNode.Name)
+					switch {
+					case dp.RPC != nil && dp.RPC.Input == deviatedNode:
+						// The input and output of an rpc or action are not
+						// filed in its child map.
+						dp.RPC.Input = nil
+					case dp.RPC != nil && dp.RPC.Output == deviatedNode:
+						dp.RPC.Output = nil
+					default:
+						dp.delete(deviatedNode.Name)
+					}
 				}
 			case DeviationDelete:
 				if devSpec.Config != TSUnset {
